@@ -28,7 +28,7 @@
   container kinds (list / tuple / their subclasses / iterators; T2 only):
     mkseq in|out l|t|L|T T,T,…|-       a list / tuple / list-subclass / tuple-subclass of existing inputs / outputs
     newctxfrom VIN VOUT lock ver WIT|- g|n   CTransaction(<VIN>, <VOUT>, lock, ver[, <WIT>]); g: iterators are passed
-    setwitc r wit cc                   as setwit; cc ∈ {l,t}² = containers of vtxinwit and of each stack
+    setwitc r wit cc                   as setwit; cc ∈ {l,t,L,T}² = containers (list, tuple, their subclasses) of vtxinwit and of each stack
   T := name('.'childindex)*   name = index of the user step that created the root object.
     c09.specx <history>      like c09.runv, computed on Spec.AliasSem (cells with explicit aliasing)
     c09.xcheck <history>     'same' if heap model and Spec.AliasSem agree on every observation, else 'diff@k'
